@@ -355,11 +355,15 @@ func (d DB) NewID(c context.Context, t vocab.Type) (*url.URL, error) {
 		return nil, err
 	}
 	a.NextID++
-	id := fmt.Sprintf("%s/id/%d", a.LocalPrefix(), a.NextID)
+	prefix := a.LocalPrefix()
+	if a.IDScheme != "" {
+		prefix = a.IDScheme + "://" + LocalHost
+	}
+	id := fmt.Sprintf("%s/id/%d", prefix, a.NextID)
 	if r := reqOf(c); r != nil {
 		// ids are named after the request, so that they do not depend on the interleaving
 		r.IDs++
-		id = fmt.Sprintf("%s/id/r%d-%d", a.LocalPrefix(), r.ID, r.IDs)
+		id = fmt.Sprintf("%s/id/r%d-%d", prefix, r.ID, r.IDs)
 	}
 	a.note(idx, c, id)
 	return U(id), nil
